@@ -80,10 +80,12 @@ def _body(ks, js, vals, nc, nc2):
     knames = ['g', 'h'][:K]
     vals = list(vals[:n])
     cols = [Vector(list(kc), name=nm) for kc, nm in zip(KC, knames)] + [Vector(list(vals), name='v'), Vector(list(range(n)), name='pos')]
-    if spec == 'ext':
+    if spec in ('ext', 'extnamed'):
         cols = cols[K:]       # the key vectors are not stored in the table
-    t = Table(cols) if cols and n > 0 else Table({nm: [] for nm in (knames if spec != 'ext' else []) + ['v', 'pos']})
-    if n == 0 and spec == 'ext':
+    if spec == 'extnamed':
+        knames = ['pos', 'v'][:K]     # ... and carry the NAMES of stored columns that hold other values: a key given as a vector is that vector
+    t = Table(cols) if cols and n > 0 else Table({nm: [] for nm in (knames if spec not in ('ext', 'extnamed') else []) + ['v', 'pos']})
+    if n == 0 and spec in ('ext', 'extnamed'):
         return None
     before = H.snap(t)
     if spec == 'name':
@@ -328,8 +330,9 @@ def obligations(tier, win=False, prefix='agg'):
     add('h_agg_int', 3, 'two apply entries,n=3', fns=['sum'], apply=2)
     add('h_agg_int', 3, 'K=2,n=3', K=2, nones=False)
     add('h_agg_int', 2, 'K=2,n=2,nones', K=2)
-    for sp in ('col', 'ext'):
+    for sp in ('col', 'ext', 'extnamed'):
         add('h_agg_int', 3, 'spec=%s,n=3' % sp, spec=sp)
+    add('h_agg_int', 2, 'K=2,spec=extnamed,n=2', K=2, spec='extnamed', nones=False, fns=['sum'])
     for af in ('list', 'tuple'):
         add('h_agg_int', 3, 'args as %s,n=3' % af, argform=af, fns=['sum', 'max'])
         add('h_agg_int', 2, 'args as %s,K=2,n=2' % af, argform=af, K=2, nones=False, fns=['count'])
